@@ -324,6 +324,13 @@ def make_statement_grammar(g: Grammar, gx):
     g.nt("labeled-statement", "_parse_labeled_statement")
     g.prod("labeled-statement", [T("ID"), T("COLON"), N("pragmacomp-or-statement")],
            build=lambda v, gx: A.Label(v[0].value, v[2], co(v[0])), label="labeled-statement: identifier : statement")
+    # labels have their own name space (6.2.3): a typedef name may be used as a label
+    # (kept in a nonterminal of its own, not reachable from `statement`, so that the FIRST sets used elsewhere stay those of
+    # the constructs the parser is known to support; the rejection is one known finding)
+    g.nt("labeled-statement[typedef-name]")
+    g.prod("labeled-statement[typedef-name]", [T("TYPEID"), T("COLON"), N("pragmacomp-or-statement")],
+           build=lambda v, gx: A.Label(v[0].value, v[2], co(v[0])), label="labeled-statement: identifier(typedef name) : statement",
+           note="typedef-reuse")
     g.prod("labeled-statement", [T("CASE"), N("constant-expression"), T("COLON"), N("pragmacomp-or-statement")],
            build=lambda v, gx: A.Case(v[1], [v[3]], co(v[0])), label="labeled-statement: case constant-expression : statement")
     g.prod("labeled-statement", [T("DEFAULT"), T("COLON"), N("pragmacomp-or-statement")],
@@ -361,6 +368,9 @@ def make_statement_grammar(g: Grammar, gx):
 
     g.nt("jump-statement", "_parse_jump_statement")
     g.prod("jump-statement", [T("GOTO"), T("ID"), T("SEMI")], build=lambda v, gx: A.Goto(v[1].value, ANY_INSIDE), label="jump-statement: goto identifier ;")
+    g.nt("jump-statement[typedef-name]")
+    g.prod("jump-statement[typedef-name]", [T("GOTO"), T("TYPEID"), T("SEMI")], build=lambda v, gx: A.Goto(v[1].value, ANY_INSIDE),
+           label="jump-statement: goto identifier(typedef name) ;", note="typedef-reuse")
     g.prod("jump-statement", [T("CONTINUE"), T("SEMI")], build=lambda v, gx: A.Continue(co(v[0])), label="jump-statement: continue ;")
     g.prod("jump-statement", [T("BREAK"), T("SEMI")], build=lambda v, gx: A.Break(co(v[0])), label="jump-statement: break ;")
     g.prod("jump-statement", [T("RETURN"), N("expression-opt"), T("SEMI")], build=lambda v, gx: A.Return(v[1], co(v[0])),
@@ -424,6 +434,7 @@ def add_value_variants(g, gx):
         sp["type"] = [A.IdentifierType(["unsigned"], co(m)), A.IdentifierType(["long"], co(m))]
         sp["storage"] = ["static"]
         sp["function"] = ["inline"]
+        sp["alignment"] = [A.Alignas(A.Constant("int", "8", co(m)), co(m))]
         return sp
     def spec_extern(m):
         sp = spec_int(m)
